@@ -73,9 +73,10 @@ def _t2(c0, c1, c2, c3, c4, w):
 
     C = cell(w)
     conns = [
+        # (the `a` ports share ONE no-connect object when several of them choose it: each port still gets a net of its own)
         {"a": opt(c0, 0, "a", 0), "b": opt(c1, 0, "b", 1)},
-        {"a": opt(c2, 1, "a", 2), "b": opt(c3, 1, "b", 3)},
-        {"a": opt(c4, 2, "a", 4), "b": s},
+        {"a": opt(c2, 1, "a", 0), "b": opt(c3, 1, "b", 3)},
+        {"a": opt(c4, 2, "a", 0), "b": s},
     ]
     return Mod("Top", ports=[("s", w), ("t", w), ("bus", 2 * w)],
                insts=[Inst(names[k], C, conns[k]) for k in range(3)])
